@@ -30,7 +30,7 @@ ASSUMPTIONS = [
 ]
 EXHAUSTIVE_NOTE = 'the fixed product processors x selector forms x FIXED_PACKAGES is enumerated completely on every run'
 BUDGET = {'quick': dict(examples=800, shards=8, seconds=70),
-          'thorough': dict(examples=20000, shards=16, seconds=1200)}
+          'thorough': dict(examples=60000, shards=16, seconds=1200)}
 
 FIXED_PACKAGES = [['b'], ['a', 'ab'], ['a.b', 'a1b', 'axb'], ['a', 'ab', 'a.b', 'a-b'], ['res_1', 'res_10', 'a']]
 PROCS = ['validate', 'deduplicate', 'printer', 'set_type', 'load_package', 'load_tuple', 'sort_rows', 'filter_rows',
